@@ -270,7 +270,7 @@ class Contents(object):
                 'and in a ZIP; two files matching the same request with different contents; .index files')
 
     def blocks(self, tier):
-        return [{'g': g} for g in ('bytes', 'toolarge', 'pairs', 'index')]
+        return [{'g': g} for g in ('bytes', 'toolarge', 'pairs', 'index', 'index-places')]
 
     def cases(self, block, tier):
         g = block['g']
@@ -287,6 +287,13 @@ class Contents(object):
             for a, b in itertools.permutations(names, 2):
                 for kind in ('dir', 'zip'):
                     yield {'g': g, 'a': a, 'b': b, 'kind': kind}
+        elif g == 'index-places':
+            # the file the index names and a regularly named variant, each at every depth of the tree
+            for td in (0, 1, 2):
+                for rn in ('FOO-MIB', 'FOO-MIB.txt', 'foo-mib.mib', 'FOO.my', 'FOO-MIB.MIB'):
+                    for rd in (0, 1, 2):
+                        for fuzzy in (0, 1):
+                            yield {'g': g, 'td': td, 'rn': rn, 'rd': rd, 'fuzzy': fuzzy}
         else:
             for v in ('odd-target', 'missing-target', 'blank-line', 'other-module-only', 'three-columns'):
                 yield {'g': g, 'v': v}
@@ -339,6 +346,21 @@ class Contents(object):
                 got = ask(rd, 'FOO-MIB')
                 if got[0] != 'found' or got[1] not in ('content A', 'content B'):
                     vs.append(('C14|contents|%s|pair-not-served' % case['kind'], '%r -> %r' % (files, got)))
+                return got[:2], vs, 1
+            if g == 'index-places':
+                put_file(root, case['rd'], case['rn'], b'regular variant')
+                put_file(root, case['td'], 'weird_file-name.dat', b'index target')
+                with open(os.path.join(root, '.index'), 'w') as f:
+                    f.write('BAR-MIB bar.txt\nFOO-MIB weird_file-name.dat\n')
+                rd = FileReader(root)
+                try:
+                    info, text = rd.getData('FOO-MIB', fuzzyMatching=bool(case['fuzzy']))
+                    got = ('found', text, info.mtime, info.file)
+                except error.PySmiError as exc:
+                    got = ('error', type(exc).__name__)
+                if got[:2] != ('found', 'index target'):
+                    vs.append(('C14|index|mapping-does-not-take-precedence|target-depth-%d|variant-depth-%d' % (case['td'], case['rd']),
+                               'variant %s, fuzzy %s -> %r' % (case['rn'], case['fuzzy'], got)))
                 return got[:2], vs, 1
             v = case['v']
             put_file(root, 0, 'FOO-MIB.txt', b'regular variant')
